@@ -12,7 +12,7 @@ TRUSTED = [
 ]
 ASSUME = [
     'every fork is consumed by its own thread and keeps being consumed',
-    'the window bound is checked by the oracle on explored runs (theorem _todo); fork_prefix is a theorem and also an oracle check; liveness is only refuted, not proved',
+    'the window bound (C10_tee_window) and fork_prefix are theorems and also oracle checks on every explored run; liveness is only refuted, not proved',
 ]
 
 I_KEY = 'C10-I-first-element-path-takes-lock-unconditionally'
